@@ -22,7 +22,11 @@ from .common import SCRATCH, Check, chunks, workers
 
 FILES = {("r1", "a.txt"): "r1a", ("r1", "b"): "r1b", ("r1", "sub", "c.txt"): "r1c", ("r2", "a.txt"): "r2a",
          ("r2", "d.txt"): "r2d", ("secret.txt",): "SECRET", ("r1x", "a.txt"): "r1x-a", ("r1", "sub.txt"): "r1subtxt"}
-SEGS = '{"a.txt", "a", "b", "sub", "c.txt", "d.txt", "secret.txt", "..", ".", "", "r1", "r2", "r1x", "sub.txt"}'
+SEGS = '{"a.txt", "a", "b", "sub", "c.txt", "d.txt", "secret.txt", "..", ".", "", "r1", "r2", "r1x", "sub.txt", "@DOTS1@", "@DOTS2@", "@SLASH@secret.txt"}'
+SEGS_FEW = '{"a.txt", "sub", "secret.txt", "..", ".", "", "r1", "r1x", "@DOTS1@", "@SLASH@secret.txt"}'
+# look-alike characters that compatibility normalisation folds into path syntax; to the
+# model they are ordinary (non-existing) file names
+LOOKALIKE = {"@DOTS1@": "\u2024\u2024", "@DOTS2@": "\uff0e\uff0e", "@SLASH@": "\uff0f"}
 
 
 def build_tree(base: Path) -> None:
@@ -69,6 +73,8 @@ def outcome(fn):
 def probe(rec: dict, base: Path, loaders_cache: dict) -> list[tuple[str, dict]]:
     from liquid2 import ChoiceLoader, DictLoader, Environment
     name = rec["name"].replace("@ROOT@", str(base))
+    for k, v in LOOKALIKE.items():
+        name = name.replace(k, v)
     key = (json.dumps(rec["roots"]), rec["ext"])
     if key not in loaders_cache:
         loaders_cache[key] = make_loaders(base, rec["roots"], rec["ext"])
@@ -123,8 +129,10 @@ def check(tier: str) -> int:
     build_tree(base)
     maxseg = 3 if tier == "thorough" else 2
     try:
-        for roots, ext in (("<- Roots1", '""'), ("<- Roots2", '".txt"'), ("<- Roots1", '".txt"'), ("<- Roots2", '""')):
-            consts = {"Segs": SEGS, "MaxSeg": str(maxseg), "Roots": roots, "Ext": ext, "Dev": "{}", "Focus": '"paths"'}
+        plans = [("<- Roots1", '""', SEGS, maxseg), ("<- Roots2", '".txt"', SEGS, maxseg), ("<- Roots1", '".txt"', SEGS, maxseg),
+                 ("<- Roots2", '""', SEGS, maxseg), ("<- Roots1", '""', SEGS_FEW, maxseg + 1), ("<- Roots1", '".txt"', SEGS_FEW, maxseg + 1)]
+        for roots, ext, segs, depth in plans:
+            consts = {"Segs": segs, "MaxSeg": str(depth), "Roots": roots, "Ext": ext, "Dev": "{}", "Focus": '"paths"'}
             r = tlc.run("LiquidPaths", tlc.cfg_text(constants=consts, invariants=["Confined", "Export"]), tag="paths", timeout=3000)
             try:
                 if r.error:
@@ -133,7 +141,7 @@ def check(tier: str) -> int:
                 if r.invariant_violated:
                     chk.spec_violation(r, f"paths roots={roots} ext={ext}")
                     continue
-                chk.tlc(r, f"all names <= {maxseg} segments, roots {roots}, ext {ext}")
+                chk.tlc(r, f"all names <= {depth} segments over {len(segs.split(','))} segment kinds, roots {roots}, ext {ext}")
                 recs = list(r.out_lines())
             finally:
                 r.cleanup()
